@@ -448,6 +448,8 @@ impl OpBuilder {
                     3 => Invisible,
                     4 => FillAndClip,
                     5 => StrokeAndClip,
+                    6 => FillThenStrokeAndClip,
+                    7 => Clip,
                     _ => {
                         bail!("Invalid text render mode: {}", n);
                     }
@@ -945,7 +947,11 @@ pub enum TextMode {
     FillThenStroke,
     Invisible,
     FillAndClip,
-    StrokeAndClip
+    StrokeAndClip,
+    /// mode 6: fill, then stroke text and add to path for clipping
+    FillThenStrokeAndClip,
+    /// mode 7: add text to path for clipping
+    Clip
 }
 
 #[derive(Debug, Copy, Clone, PartialEq, DataSize)]
